@@ -4,8 +4,9 @@
 //!   raw      : 938 header shapes (QR x 7 opcodes x counts in {0,1,2,ffff}^4
 //!              with <= 2 non-zero) x every string of length <= 4 (quick) /
 //!              <= 5 (thorough) over the 10 significant octets, plus every
-//!              header prefix of 0..11 octets; x 2 transports x RAW_SLOTS.
-//!              (QR-set headers: strings of length <= 2 / <= 3.)
+//!              header prefix of 0..11 octets; x 2 transports x 2 (catalog,
+//!              configuration) pairs (thorough: 2 more pairs with strings
+//!              <= 4). QR-set headers: strings of length <= 2 / <= 3.
 //!   trunc    : every template cut at every length;
 //!   mut      : every single-field mutation / structural mutation;
 //!   mut-trunc: every mutant cut at every length >= 12   (thorough);
@@ -62,8 +63,8 @@ pub fn verdict(l: &mut Local, c: &Case, results: &Results) {
 /// or a TSIG, and at most the root name as QNAME, so configuration and
 /// catalog can only matter through the root-name lookup: one representative
 /// of every catalog kind, covering every configuration kind once.
-const RAW_SLOTS_QUICK: [(&str, usize); 2] = [("std", 0), ("malformed", 3)];
-const RAW_SLOTS_THOROUGH: [(&str, usize); 4] = [("std", 0), ("malformed", 3), ("empty", 2), ("single", 5)];
+const RAW_SLOTS: [(&str, usize); 2] = [("std", 0), ("malformed", 3)];
+const RAW_SLOTS_MORE: [(&str, usize); 2] = [("empty", 2), ("single", 5)];
 
 pub fn run(ctx: Ctx) -> ! {
     let world = World::new(vec![]);
@@ -91,15 +92,19 @@ pub fn run(ctx: Ctx) -> ! {
 
     // (a) raw
     let headers = families::raw_headers();
-    let raw_slots: Vec<Slot> = if ctx.quick() { &RAW_SLOTS_QUICK[..] } else { &RAW_SLOTS_THOROUGH[..] }
-        .iter()
-        .map(|(cat, k)| Slot::new(&world, cat, cfgs[*k]))
-        .collect();
+    let mk = |v: &[(&str, usize)]| -> Vec<Slot> { v.iter().map(|(cat, k)| Slot::new(&world, cat, cfgs[*k])).collect() };
+    let raw_slots = mk(&RAW_SLOTS);
     let (max, max_qr) = ctx.pick((4, 2), (5, 3));
     ctx.set_extra("family_raw_headers", json!(headers.len()));
     ctx.set_extra("family_raw_max_suffix", json!(max));
     ctx.set_extra("family_raw_slots", json!(raw_slots.iter().map(|s| format!("{}/{}", s.cat, s.cfg.name())).collect::<Vec<_>>()));
     drive::run_raw(&ctx, &world, &raw_slots, &headers, max, max_qr, verdict);
+    if !ctx.quick() {
+        // two more (catalog, configuration) pairs, incl. RRL, with strings <= 4
+        let more = mk(&RAW_SLOTS_MORE);
+        ctx.set_extra("family_raw_slots_suffix4", json!(more.iter().map(|s| format!("{}/{}", s.cat, s.cfg.name())).collect::<Vec<_>>()));
+        drive::run_raw(&ctx, &world, &more, &headers, 4, 2, verdict);
+    }
     eprintln!("[C01] raw done at {:.1}s ({} calls)", ctx.elapsed_s(), ctx.evaluations());
 
     if !ctx.quick() {
